@@ -25,7 +25,7 @@ WHITE_BOX = ["private running statistics (twin comparison only)"]
 ERR = ["DDM", "EDDM", "STEPD", "ADWINAccuracy"]
 UNUSED_Y = ["ADWIN", "PageHinkley", "CUSUM", "KdqTreeStreaming", "PCACD", "KdqTreeBatch", "HDDDM", "CDBD", "NNDVI"]
 ENC = ["int", "str", "bool", "float", "multi", "np", "list", "arr", "closefloat", "numstr"]
-CELL = ["int", "bool", "np", "list", "arr", "npbool", "boollist", "boolarr"]
+CELL = ["int", "bool", "np", "list", "arr", "npbool", "boollist", "boolarr", "u8", "i8", "u64", "u8arr"]
 N_JUNK = 6
 
 
@@ -74,6 +74,10 @@ def _enc_pair(rng, agree):
 def _decode(kind, v):
     if kind == "np":
         return np.int64(v)
+    if kind in ("u8", "i8", "u64"):      # 0 / 1 labels as they come out of .astype(np.uint8) and friends
+        return {"u8": np.uint8, "i8": np.int8, "u64": np.uint64}[kind](v)
+    if kind == "u8arr":
+        return np.array([v], dtype=np.uint8)
     if kind == "list":
         return [v]
     if kind == "arr":
